@@ -391,6 +391,22 @@ class Exec:
             ev = self.spec(envH, st, self.entry_state, self.entry_env)
             g = self.eval_clause(ev, cl, 'invariant', 'assume', r)
             vc.assume(g.term, r)
+        # `use lemma(args) at loopN [if cond]`: the lemma applied in the state at the loop head, every iteration
+        if self.contract is not None and self.top is self:
+            for (site, lname, largs, ucond) in self.contract.uses:
+                if site != 'loop%d' % loop['ordinal']:
+                    continue
+                if lname not in vc.cs.lemmas:
+                    raise ContractError('use of unknown lemma %s' % lname)
+                evu = self.spec(envH, st, self.entry_state, self.entry_env)
+                try:
+                    avs = [evu.eval(a) for a in largs]
+                    ug = r
+                    if ucond is not None:
+                        ug = vc.define(self.nm('usecond$h%d' % h), 'Bool', and_(r, evu.eval(ucond).term))
+                except SpecError as e:
+                    raise ContractError('%s: use %s at loop%d: %s' % (short_fn(self.prog, self.f.name), lname, loop['ordinal'], e))
+                apply_lemma(vc, vc.cs.lemmas[lname], avs, ug, 'loop%d.use.%s' % (loop['ordinal'], lname), self.contract.tags, blk['instrs'][0].get('line', 0))
         m0 = None
         if lc.decreases is not None:
             ev = self.spec(envH, st, self.entry_state, self.entry_env)
@@ -1765,6 +1781,8 @@ def apply_lemma(vc, lm, argvs, guard, site='use', tags=(), line=0):
 def verify_function(vc, func, contract):
     """generate all obligations of one function under its contract"""
     prog = vc.prog
+    if contract is not None and isinstance(getattr(contract, 'opaque', None), list):
+        vc.opaque_recs = set(contract.opaque)
     ex = Exec(vc, func, contract)
     st = State(vc, {}, None, 0)
     a0 = vc.declare('alloc@0', 'Int', exact=True)
